@@ -528,10 +528,11 @@ pub fn main(args: &[String]) -> i32 {
         if let Some(fa) = reply.get("facts") {
             if fa.get("minlen").is_some() {
                 let opt = |v: &Value| if v.is_null() { json!({"some": false, "v": []}) } else { json!({"some": true, "v": v}) };
+                let probe = crate::record::probe_of(&beh["pat"]);
                 let ev = json!({"ev":"facts","pat":beh["pat"],"flags":beh["flags"],"xpath":beh["x"],
                                 "facts":{"prefix":opt(&fa["prefix"]),"initial":opt(&fa["initial"]),"minlen":fa["minlen"],
-                                         "hasbol":fa["hasbol"],"pre":crate::record::strip_sets(&fa["pre"]),
-                                         "ops":crate::record::strip_sets(&fa["ops"])}});
+                                         "hasbol":fa["hasbol"],"pre":crate::record::strip_sets(&fa["pre"], &probe),
+                                         "ops":crate::record::strip_sets(&fa["ops"], &probe)}});
                 if let Some(f) = facts_out.lock().unwrap().as_mut() {
                     let _ = writeln!(f, "{}", ev);
                 }
